@@ -6,9 +6,9 @@ SIM_NOTE = ("Trusted base: the harness's application model (DESIGN.md section 3)
             "the reference models in harness/refmodel, and the build-tagged read-only hooks. A pass means no counterexample in the "
             "generated histories of bounded size (<=5 nodes, bounded actions per case); it is not a proof of absence.")
 
-def sim(pid, text, technique, ref):
+def sim(pid, text, technique, ref, category="exploration"):
     return dict(property_id=pid, engine="SIM", technique=technique,
-                level_claimed=dict(category="exploration", text=text, design_ref=ref), level_note=SIM_NOTE)
+                level_claimed=dict(category=category, text=text, design_ref=ref), level_note=SIM_NOTE)
 
 CHECKS = [
  sim("C01", "Generated cluster histories (rapid stateful generation, 8-16 shards) with an append-only registry of committed entries and a hash-chain state machine as oracle: every entry handed out for application anywhere, in any incarnation, must equal the first one observed at that index; snapshots must state the committed prefix.",
@@ -19,8 +19,8 @@ CHECKS = [
      "property-based testing: rapid-driven cluster simulation, log-matching invariant via a global entry registry", "DESIGN.md 5/C03"),
  sim("C04", "On every transition to leader the new leader's log is compared with every entry committed in an earlier term; every log mutation is checked not to replace or truncate a committed entry the node held.",
      "property-based testing: rapid-driven cluster simulation, leader-completeness invariant against the committed registry", "DESIGN.md 5/C04"),
- sim("C05", "Crash-dominated generated histories with crash points between all Ready sub-steps and storage-thread steps; at the instant a promise-carrying message is handed to the network the sender's durable storage (owned by the harness) must contain the promised state; C01-C04 monitors stay on across crashes.",
-     "property-based testing with fault injection: rapid-drawn crash points in a deterministic simulation, release-time durability oracle on harness-owned storage", "DESIGN.md 5/C05"),
+ sim("C05", "Two generated searches with one oracle. (a) Crash-dominated random histories with crash points between all Ready sub-steps and storage-thread steps. (b) Single-crash fault enumeration: rapid draws a crash-free base schedule whose Ready sub-steps and storage-thread steps are separate actions, and it is replayed once for every (action boundary, node, crash variant in {plain, partial append, lost un-synced hard state, both}), each followed by a restart and a drain - complete per base schedule, base schedules sampled. Oracle: at the instant a promise-carrying message is handed to the network the sender's durable (fsynced) storage, owned by the harness, must contain the promised state; a leader's term must be durable while it acts as leader; C01-C04 monitors stay on across crashes.",
+     "property-based testing with fault injection: rapid-drawn crash points plus complete single-crash enumeration over rapid-generated base schedules (recorded-draw replay), release-time durability oracle on harness-owned storage", "DESIGN.md 5/C05 and 11.1", category="fault_enumeration"),
  sim("C06", "At every leader commit advance the entry must be of the leader's term and durably held by a reference-computed majority of each voter set (read from harness-owned storages); commit <= last index everywhere; follower commit never beyond any leader's commit nor off the committed prefix.",
      "property-based testing: rapid-driven cluster simulation, durable-quorum oracle computed from the nodes' storages", "DESIGN.md 5/C06"),
  sim("C07", "Exposed hard states within an incarnation and persisted hard states over the whole life are checked for monotone term/commit and one vote per term; after restart the node resumes exactly the durable hard state and never sends a message below it.",
